@@ -250,7 +250,7 @@ Fixpoint decode_loop (fuel : nat) (h : hf) (ring : arr) (r : N) (bits : list boo
           decode_loop g h1 (aset ring r c) ((r + 1) mod cN) bits1 (count + 1) textsize (c :: acc)
         else
           let '(p, bits2) := get_position bits1 in
-          let i := (r + cN - p - 1) mod cN in
+          let i := (r + cN + cN - p - 1) mod cN in   (* p may exceed the window: the C code masks the difference *)
           let j := c - 255 + cTHRESHOLD in
           let '(ring2, r2, acc2) := copy_from (N.to_nat j) ring i r acc in
           decode_loop g h1 ring2 r2 bits2 (count + j) textsize acc2
